@@ -7,7 +7,8 @@ from hypothesis import strategies as st
 from vlib import gen, oracle
 
 ID = "C10"
-RULE = ("case = (1-2 frames, 1-60 atoms (sometimes up to 400), placement uniform inside / spread over +-1,3,8 cells / on cell faces and "
+RULE = ("case = (1-2 frames, 1-60 atoms (sometimes up to 400), placement uniform inside / spread over +-1,3,8 cells / inside with 40% moved out by lattice vectors / pairs at 0.3..1.2 cutoffs "
+        "split over images / on cell faces and "
         "voxel boundaries / clustered, cell of every C05 kind or none, cutoff from 0.02 nm to half the smallest cell width, query and "
         "haystack subsets incl. overlapping, unsorted and empty); oracle = float64 exact minimum-image distance matrix; compute_neighbors: "
         "exact set modulo pairs within 1e-5 of the cutoff, haystack order, no duplicates; compute_neighborlist: exact per-atom sets, "
@@ -38,10 +39,10 @@ def _open_keys():
 @st.composite
 def strategy(draw, tier="quick"):
     nf = draw(st.integers(1, 2))
-    cells = draw(gen.cells(nf, lmin=1.0, lmax=12.0))
+    cells = draw(gen.cells(nf, lmin=1.0, lmax=12.0, kinds=["cubic", "ortho", "ortho", "ortho", "mono", "hex", "troct", "rhdo", "tric", "tric"]))
     big = draw(st.integers(0, 14)) == 0
     n = draw(st.integers(80, 150)) if big else draw(st.integers(1, 60))
-    cp = draw(gen.coord_params(n_atoms=n, classes=["inside", "inside", "spread", "spread", "faces", "clustered"]))
+    cp = draw(gen.coord_params(n_atoms=n, classes=["inside", "inside", "spread", "spread", "faces", "clustered", "mixed", "mixed", "paired-inside", "paired-inside"]))
     cp["offset"] = draw(st.sampled_from([0.0, 0.0, 0.0, 30.0]))
     q = sorted(set(draw(st.lists(st.integers(0, n - 1), min_size=1, max_size=min(n, 6)))))
     hs_mode = draw(st.sampled_from(["all", "all", "subset", "shuffled", "empty"]))
@@ -55,6 +56,7 @@ def strategy(draw, tier="quick"):
     case = {"nf": nf, "cells": cells, "coords": cp, "cut_frac": draw(st.sampled_from([0.02, 0.1, 0.25, 0.5, 0.75, 0.8, 0.97, 1.0])),
             "query": q, "haystack": hay, "periodic": draw(st.sampled_from([True, True, True, False])),
             "voxel_snap": draw(st.booleans()), "nl_frame": draw(st.integers(0, nf - 1))}
+    case["coords"]["pair_scale"] = case["cut_frac"]
     if "C10-nlist-skewed-large-cutoff" in _open_keys() and WHERE["C10-nlist-skewed-large-cutoff"](case, None):
         # excluded by construction: the neighbour-list part of this case runs with the cutoff capped at 0.75 of the
         # half width (compute_neighbors still gets the full cutoff)
@@ -91,7 +93,7 @@ def run_case(case):
     query = case["query"]
     hay = case["haystack"]
     hay_list = list(range(n)) if hay is None else hay
-    across = False
+    across = only_image = only_image_rect = False
     with warnings.catch_warnings():
         warnings.simplefilter("ignore")
         kw = {} if hay is None else {"haystack_indices": np.array(hay, dtype=int)}
@@ -118,6 +120,10 @@ def run_case(case):
                     sure.append(h)
                 elif any(abs(d - cutoff) <= margin for d in ds):
                     maybe.append(h)
+            if use_cell and any(all(plain[h, q] >= cutoff for q in query if q != h) for h in sure):
+                only_image = True        # a neighbour that is one only through the periodic boundary
+                if all(gen.is_ortho(c) for c in cells):
+                    only_image_rect = True
             g = [int(v) for v in got_nb[f]]
             if len(set(g)) != len(g):
                 viol.append(("neighbors/duplicates", "frame %d: %s" % (f, g[:20])))
@@ -170,11 +176,15 @@ def run_case(case):
                     if any(i not in sets[j] for j in sets[i]):
                         viol.append(("neighborlist/asymmetric", "atom %d lists a neighbour that does not list it back" % i))
                         break
-    outside = case["coords"]["cls"] in ("spread", "faces", "clustered") and cells is not None
+    outside = case["coords"]["cls"] in ("spread", "faces", "clustered", "mixed", "paired-inside") and cells is not None
     tric = cells is not None and not all(gen.is_ortho(c) for c in cells)
     labels.append("placement:" + case["coords"]["cls"])
     if across:
         labels.append("pair-across-boundary")
+    if only_image:
+        labels.append("neighbour-only-through-boundary")
+    if only_image_rect:
+        labels.append("neighbour-only-through-boundary/rectangular-cell")
     if hay is not None:
         labels.append("haystack-subset" if hay else "haystack-empty")
     if n >= 100:
